@@ -22,7 +22,7 @@ RULE = ("spectra with 1-4 axes (lengths 1-6 incl. axes of length 1; positive rea
         "through npy pipes, and (npy / precision >= 12 output) cell by cell with the documented pipeline evaluated in exact rational arithmetic (1e-9 of sum|x|). The last combined command of every input also with `-o FILE` (path absent / empty / longer earlier result / longer garbage / the input itself): the file must hold the bytes a pipe receives. Four spectra with more than 2^16 entries through plain / -n / mask view in text and npy. Direct checks: mask zeroes exactly the first and last cell, normalize sums to 1 (1e-12*cells) and preserves ratios "
         "(1e-12), plain view reproduces the input within 0.5*10^-p. Non-trivial: >=2 options active; distinct = digest(input, argv).")
 ASSUMPTIONS = ["npy pipes between chained invocations are lossless (C07/C15 check that separately)"]
-FLOORS = {"quick": {"evaluations": 500, "distinct_nontrivial": 300, "counts": {"combined_vs_chain": 500, "mask_checks": 100, "normalize_checks": 100, "pipeline_vs_exact": 250, "signed_inputs": 10, "big_spectrum_runs": 16, "output_path_runs": 100}},
+FLOORS = {"quick": {"evaluations": 500, "distinct_nontrivial": 300, "counts": {"combined_vs_chain": 500, "mask_checks": 100, "normalize_checks": 100, "pipeline_vs_exact": 250, "signed_inputs": 10, "big_spectrum_runs": 40, "output_path_runs": 100}},
           "thorough": {"evaluations": 30000, "distinct_nontrivial": 15000, "counts": {"combined_vs_chain": 30000}}}
 NSHARD = 32
 
@@ -44,8 +44,9 @@ def check_big(S, p):
     vals = [float((k * 7919) % 1000 + 1) for k in range(n)]
     inp = GS.npy_bytes(shape, vals) if rng.random() < 0.5 else GS.text_spectrum(shape, vals, 0)
     tot = sum(vals)
-    for args, exp in ((["view", "--precision", "2"], vals), (["view", "-n", "--precision", "12"], [v / tot for v in vals]),
-                      (["view", "--mask-monomorphic", "-O", "npy"], [0.0] + vals[1:-1] + [0.0]), (["view", "-O", "npy"], vals)):
+    # the normalizing run several times: a total accumulated by several threads must come out the same every time
+    for args, exp in [(["view", "--precision", "2"], vals), (["view", "--mask-monomorphic", "-O", "npy"], [0.0] + vals[1:-1] + [0.0]), (["view", "-O", "npy"], vals)] + \
+                     [(["view", "-n", "--precision", "12"], [v / tot for v in vals])] * 8:
         r = cli.sfs(args, stdin=inp, timeout=120)
         S.count("big_spectrum_runs")
         wit = {"level": "C", "argv": r.argv, "big_shape": shape, "input": "value k = (k * 7919) %% 1000 + 1 as %s" % ("npy" if inp[:1] == b"\x93" else "text"), "run": r.brief()}
